@@ -233,6 +233,21 @@ type St struct {
 	blk *ssa.BasicBlock
 	ip  int
 	env map[ssa.Value]Value
+	ver int // bumped whenever the state changes (executed or merged)
+	sp  []*T
+	spc *T
+}
+
+type pairKey struct {
+	a, b   *St
+	va, vb int
+}
+
+func (s *St) spineOf() []*T {
+	if s.spc != s.pc {
+		s.sp, s.spc = spine(s.pc), s.pc
+	}
+	return s.sp
 }
 
 type Out struct {
@@ -585,6 +600,7 @@ func (e *Engine) runFrame(fn *ssa.Function, args []Value, s *State) []Out {
 	e.pendingBind = nil
 	e.enter(s0, nil, fn.Blocks[0])
 	active := []*St{s0}
+	failed := map[pairKey]bool{}
 	parked := map[*ssa.BasicBlock][]*St{}
 	iters := map[*ssa.BasicBlock]int{}
 	var outs []Out
@@ -627,21 +643,19 @@ func (e *Engine) runFrame(fn *ssa.Function, args []Value, s *State) []Out {
 				active = append(active, o)
 			}
 		}
-		// merge the states standing at this point, closest relatives (longest common path-condition prefix) first
-		failed := map[[2]*St]bool{}
+		// merge the states standing at this point, closest relatives (longest common path-condition prefix) first;
+		// a pair that failed to merge is not retried until one of the two has moved on
 		for len(group) > 1 {
 			bi, bj, best := -1, -1, -1
-			spines := make([][]*T, len(group))
-			for i := range group {
-				spines[i] = spine(group[i].pc)
-			}
 			for i := 0; i < len(group); i++ {
+				si := group[i].spineOf()
 				for j := i + 1; j < len(group); j++ {
-					if failed[[2]*St{group[i], group[j]}] {
+					if failed[pairKey{group[i], group[j], group[i].ver, group[j].ver}] {
 						continue
 					}
+					sj := group[j].spineOf()
 					k := 0
-					for k < len(spines[i]) && k < len(spines[j]) && spines[i][k] == spines[j][k] {
+					for k < len(si) && k < len(sj) && si[k] == sj[k] {
 						k++
 					}
 					if k > best {
@@ -653,12 +667,14 @@ func (e *Engine) runFrame(fn *ssa.Function, args []Value, s *State) []Out {
 				break
 			}
 			if e.mergeSt(group[bi], group[bj]) {
+				group[bi].ver++
 				group = append(group[:bj], group[bj+1:]...)
 			} else {
-				failed[[2]*St{group[bi], group[bj]}] = true
+				failed[pairKey{group[bi], group[bj], group[bi].ver, group[bj].ver}] = true
 			}
 		}
 		cur := group[0]
+		cur.ver++
 		active = append(active, group[1:]...)
 		next, fin := e.execBlock(fn, cur)
 		outs = append(outs, fin...)
